@@ -530,6 +530,52 @@ def run(ctx: Any, prog: Program) -> None:
     # The writer can put every character into a quoted string; the only content parse may refuse is a line break (LF / CR) in a name
     # (or, on request, in a value).  A rejection test on the token text that is broader than `'\n' in x or '\r' in x` refuses text
     # the writer produces.
+    # ---- R11: every name the parser has read ends up in the tree ----------------------------------------------------------------------------
+    # After `keyvalue = Keyvalues...` for a STRING token the rest of the arm either stores the object in the current block, raises, or skips
+    # it because its [flag] is disabled (the writer cannot emit flags).  Any other `continue` drops a name/value pair the writer produced.
+    ctx.rule('C01.R11', 'a keyvalue read by Keyvalues.parse is dropped only when its [flag] is disabled', floor=1)
+    mk11 = [a for a in ast.walk(parse) if isinstance(a, ast.Assign) and len(a.targets) == 1 and isinstance(a.targets[0], ast.Name) and isinstance(a.value, ast.Call)
+            and ((dotted(a.value.func) or '').split('.')[-1] in ('__new__', 'Keyvalues') or (dotted(a.value.func) or '').endswith('Keyvalues.__new__'))]
+    # the object that is given the token text as its name (not the root, not the placeholder of a skipped block)
+    named11 = {dotted(t.value) for ns_ in name_stores for t in ns_.targets if isinstance(t, ast.Attribute) and not isinstance(ns_.value, ast.Constant) and not (isinstance(ns_.value, ast.Name) and isinstance(_alts(ns_.value)[0], ast.Constant))}
+    mk11 = [a for a in mk11 if a.targets[0].id in named11]
+    ctx.shape('C01.R11', len(mk11) == 1, kv, parse, 'the creation of the keyvalue object for a STRING token (`keyvalue = Keyvalues.__new__(Keyvalues)`) was not found once', text='parsed keyvalue reaches the tree')
+    if len(mk11) == 1:
+        kvname = mk11[0].targets[0].id
+        arm11 = kv.parents.get(mk11[0])
+        while arm11 is not None and not isinstance(arm11, ast.If):
+            arm11 = kv.parents.get(arm11)
+
+        def _stores(st: ast.AST) -> bool:
+            for x in ast.walk(st):
+                if isinstance(x, ast.Call) and isinstance(x.func, ast.Attribute) and x.func.attr in ('append', 'insert', 'extend') and any(isinstance(y, ast.Name) and y.id == kvname for a_ in x.args for y in ast.walk(a_)):
+                    return True
+                if isinstance(x, ast.Assign) and isinstance(x.value, ast.Name) and x.value.id == kvname and any(isinstance(t, ast.Subscript) for t in x.targets):
+                    return True
+            return False
+        n11 = 0
+        for cont in [c for c in ast.walk(arm11) if isinstance(c, ast.Continue) and c.lineno > mk11[0].lineno] if arm11 is not None else []:
+            n11 += 1
+            hold = kv.parents.get(cont)
+            blk = next((getattr(hold, f_) for f_ in ('body', 'orelse') if isinstance(getattr(hold, f_, None), list) and cont in getattr(hold, f_)), [])
+            stored = any(_stores(st) for st in blk[:blk.index(cont)]) if cont in blk else False
+            flag_off = False
+            ch: ast.AST = cont
+            an = kv.parents.get(ch)
+            tests11 = []
+            while an is not None and an is not arm11:
+                if isinstance(an, ast.If):
+                    in_body = any(ch is b for b in an.body)
+                    t = an.test
+                    neg = isinstance(t, ast.UnaryOp) and isinstance(t.op, ast.Not)
+                    core = t.operand if neg else t
+                    tests11.append(U(t)[:40])
+                    if isinstance(core, ast.Call) and (dotted(core.func) or '').split('.')[-1] == '_read_flag' and (in_body == neg):
+                        flag_off = True
+                ch, an = an, kv.parents.get(an)
+            ctx.check('C01.R11', stored or flag_off, kv, cont, f'Keyvalues.parse goes on to the next token under `{" / ".join(reversed(tests11))}` without having stored the keyvalue it just read (`{kvname}`): '
+                      'that name/value pair is silently missing from the tree although the writer produced it', text=f'continue under `{" / ".join(reversed(tests11))[:60]}` keeps the keyvalue')
+        ctx.shape('C01.R11', n11 >= 1, kv, parse, 'no `continue` found in the STRING arm of the token loop (flag-disabled skip confirmed by hand)', text='parsed keyvalue reaches the tree')
     ctx.rule('C01.R7', "Keyvalues.parse refuses string content only for a literal '\\n' / '\\r' (names; values on request)", floor=2)
     content_vars: Set[str] = set()
     # the tokenizer local: whatever is assigned a Tokenizer(...) instance
@@ -612,6 +658,7 @@ def _in_orelse(ifnode: ast.If, node: ast.AST, mod: Any) -> bool:
 
 
 MUTANTS = [
+    {'id': 'parse_drops_hash_names', 'file': 'keyvalues.py', 'find': "                    keyvalue._value = prop_value\n\n                    # Check for flags.", 'replace': "                    if token_value.startswith('#'):\n                        continue\n                    keyvalue._value = prop_value\n\n                    # Check for flags.", 'expect': 'C01.R11', 'note': 'round 12'},
     {'id': 'parsed_name_shares_folded_string', 'file': 'keyvalues.py', 'find': "                keyvalue.real_name = sys.intern(token_value)\n", 'replace': "                folded_name = sys.intern(token_value.casefold())\n                keyvalue._real_name = folded_name if token_value.islower() else sys.intern(token_value)\n", 'expect': 'C01.R4'},
     {'id': 'parse_prefilters_chunks', 'file': 'keyvalues.py', 'find': "            tokenizer = Tokenizer(\n                file_contents,", 'replace': "            if not isinstance(file_contents, (str, bytes)):\n                file_contents = (ln for ln in file_contents if not ln.startswith('//'))\n            tokenizer = Tokenizer(\n                file_contents,", 'expect': 'C01.R4'},
     {'id': 'value_newline_guard_loses_parentheses', 'file': 'keyvalues.py', 'find': "                    if not newline_values and ('\\n' in prop_value or '\\r' in prop_value):", 'replace': "                    if not newline_values and '\\n' in prop_value or '\\r' in prop_value:", 'expect': 'C01.R7'},
